@@ -552,6 +552,8 @@ def api_oracle(trace):
                     props.append("C06")
                 if any(ttl_expired(f, now) for f in got):
                     props.append("C09")
+                if op.get("ctx") is not None and any(f not in got for f in want) and lim is None:
+                    props.append("C05")
                 fails.append({"i": i, "why": "read differs from the live history", "want": want, "got": got, "props": props})
         if k == "get" and "ok" in obs:
             want = next((f for f in frames if f["id"] == op["id"]), None)
